@@ -442,6 +442,11 @@ def r26_7(ctx, m):
             raise NU(src(e))
         if isinstance(e, ast.UnaryOp) and isinstance(e.op, ast.USub):
             return -ev(e.operand, state, loc)
+        # the induction is over real values: conjugation and real part are the identity there (R26.11 decides the complex case)
+        if isinstance(e, ast.Call) and isinstance(e.func, ast.Attribute) and e.func.attr in ("conjugate", "conj") and not e.args:
+            return ev(e.func.value, state, loc)
+        if isinstance(e, ast.Attribute) and e.attr == "real" and src(e.value) != "self":
+            return ev(e.value, state, loc)
         if isinstance(e, ast.BinOp) and type(e.op) in (ast.Add, ast.Sub, ast.Mult, ast.Div, ast.Pow):
             a, b = ev(e.left, state, loc), ev(e.right, state, loc)
             return {ast.Add: a + b, ast.Sub: a - b, ast.Mult: a * b, ast.Div: a / b, ast.Pow: a ** b}[type(e.op)]
@@ -562,3 +567,93 @@ _run_c26b = run
 def run(ctx):  # noqa: F811
     _run_c26b(ctx)
     r26_7(ctx, ctx.model)
+
+
+# ---------------------------------------------------------------------------------------------------------------- R26.9 / R26.10
+def r26_10(ctx, m):
+    """statistics are computed from the samples in every class of the hierarchy"""
+    R = "R26.10"
+    ctx.rule(R, "sample statistics (average, sample_stat and their helpers) of every class in sample_list.py are computed from the "
+                "samples: no return hands back a stored attribute (the expansion point `self._m` / `self.mean` of a residual list is "
+                "NOT the sample average unless the residuals cancel) and every override delegates to the base implementation on all "
+                "paths", floor=2)
+    mod = m.module("nifty.cl.minimization.sample_list")
+    names = ("average", "sample_stat", "_average_2tuple", "_prepare_average")
+    n = 0
+    for c in mod.classes.values():
+        for nm in names:
+            fi = c.methods.get(nm)
+            if fi is None:
+                continue
+            ctx.saw_func(fi)
+            n += 1
+            bad = []
+            for r in walk_no_nested(fi.node):
+                if isinstance(r, ast.Return) and r.value is not None:
+                    t = src(r.value)
+                    if t in ("self._m", "self.mean", "self._mean") or (isinstance(r.value, ast.Tuple) and any(src(e) in ("self._m", "self.mean") for e in r.value.elts)):
+                        bad.append(f"line {r.lineno}: `return {t}`")
+            ctx.check(R, f"{fi.key}::computed from the samples", not bad,
+                      "; ".join(bad) + ": the stored expansion point is returned instead of a statistic of the samples" if bad else "", fi)
+    if not n:
+        ctx.und(R, f"{mod.name}::statistics methods", "none found", mod)
+
+
+_run_c26c = run
+
+
+def run(ctx):  # noqa: F811
+    _run_c26c(ctx)
+    # which files a task reads on load is shareRange(n_samples, ntask, rank) (shared with C22)
+    from .c22 import r22_9
+    r22_9(ctx, ctx.model, rid="R26.9")
+    r26_10(ctx, ctx.model)
+
+
+
+# ---------------------------------------------------------------------------------------------------------------- R26.11
+def r26_11(ctx, m):
+    """variance of complex values is E|x - mean|^2: the accumulated product of the two deviations is Hermitian"""
+    R = "R26.11"
+    ctx.rule(R, "StatCalculator.add: the spread accumulates conj(x - mean_old) * (x - mean_new) (or a squared modulus) - for complex "
+                "samples the plain product is the pseudo-variance, a complex number that is not the unbiased variance of the operator "
+                "outputs (and whose square root is exported as the standard deviation)", floor=1)
+    C = m.cls("nifty.cl.probing", "StatCalculator", required=False)
+    add = C.methods.get("add") if C is not None else None
+    if add is None:
+        ctx.und(R, "nifty/cl/probing.py::StatCalculator.add", "missing", "nifty/cl/probing.py")
+        return
+    ctx.saw_func(add)
+    xname = add.params()[1]
+    deltas = set()
+    for st in ast.walk(add.node):
+        if isinstance(st, ast.Assign) and len(st.targets) == 1 and isinstance(st.targets[0], ast.Name) and isinstance(st.value, ast.BinOp) \
+                and isinstance(st.value.op, ast.Sub) and src(st.value.left) == xname:
+            deltas.add(st.targets[0].id)
+    key = f"{add.key}::product of the two deviations is Hermitian"
+    prods = []
+    for z in ast.walk(add.node):
+        if isinstance(z, ast.BinOp) and isinstance(z.op, ast.Mult):
+            def base(e):
+                c = 0
+                while isinstance(e, ast.Call) and isinstance(e.func, ast.Attribute) and e.func.attr in ("conjugate", "conj") and not e.args:
+                    e = e.func.value
+                    c += 1
+                return (e.id if isinstance(e, ast.Name) else None), c % 2
+            (a, ca), (b, cb) = base(z.left), base(z.right)
+            if a in deltas and b in deltas:
+                prods.append((z, ca + cb))
+    if not prods:
+        mod2 = [z for z in ast.walk(add.node) if isinstance(z, ast.Call) and src(z.func) in ("abs", "np.abs") and any(isinstance(q, ast.Name) and q.id in deltas for q in ast.walk(z))]
+        ctx.check(R, key, True if mod2 else None, "squared modulus" if mod2 else f"no product of the deviations {sorted(deltas)} found", add)
+        return
+    for z, nconj in prods:
+        ctx.check(R, key, nconj == 1, f"`{src(z)}`" + ("" if nconj == 1 else ": no factor is conjugated - pseudo-variance for complex samples"), add, z)
+
+
+_run_c26d = run
+
+
+def run(ctx):  # noqa: F811
+    _run_c26d(ctx)
+    r26_11(ctx, ctx.model)
